@@ -307,7 +307,13 @@ fn dr7(r: &mut Rep) {
             for (ci, c) in conds.iter().enumerate() {
                 for (si, s) in sizes.iter().enumerate() {
                     r.ev(true);
-                    let mut v = Dr7Value::from_bits(start).unwrap();
+                    let mut v = match Dr7Value::from_bits(start) {
+                        Some(v) => v,
+                        None => {
+                            r.viol("C19|Dr7Value::from_bits|rejects-a-value-inside-the-valid-mask", &format!("dr7bits {:#x}", start), "");
+                            continue;
+                        }
+                    };
                     v.set_condition(num, *c);
                     let e1 = (start & !(3u64 << (16 + 4 * n))) | ((ci as u64) << (16 + 4 * n));
                     let ok1 = v.bits() == e1;
@@ -320,11 +326,29 @@ fn dr7(r: &mut Rep) {
             }
         }
     }
+    // every single field value must be accepted by from_bits and survive from_bits_truncate
+    for n in 0..4u64 {
+        for c in 0..4u64 {
+            for sz in 0..4u64 {
+                r.ev(true);
+                let raw = (c << (16 + 4 * n)) | (sz << (18 + 4 * n));
+                let ok = Dr7Value::from_bits(raw).map(|v| v.bits()) == Some(raw) && Dr7Value::from_bits_truncate(raw).bits() == raw;
+                if !ok {
+                    r.viol("C19|Dr7Value|condition/size-encoding-rejected-or-truncated", &format!("dr7field {} {} {}", n, c, sz), &format!("{:#x}", raw));
+                }
+            }
+        }
+    }
     // flag ops
     for (n, b) in DR7 {
         r.ev(true);
-        let f = Dr7Flags::from_bits(*b).unwrap();
-        let mut v = Dr7Value::from_bits(0xffff_0000).unwrap();
+        let (f, mut v) = match (Dr7Flags::from_bits(*b), Dr7Value::from_bits(0xffff_0000)) {
+            (Some(f), Some(v)) => (f, v),
+            _ => {
+                r.viol("C19|Dr7Value::from_bits|rejects-a-value-inside-the-valid-mask", &format!("dr7flag {}", n), "");
+                continue;
+            }
+        };
         v.insert_flags(f);
         let a = v.bits();
         v.toggle_flags(f);
